@@ -6,6 +6,8 @@ import (
 	"errors"
 	"fmt"
 	"math"
+	"os"
+	"runtime"
 	"sort"
 	"strconv"
 	"strings"
@@ -567,7 +569,82 @@ func answerFor(kind int, r veregister.Register, e *veregister.EnumRegisterStruct
 	return rng.Bytes(2)
 }
 
+// deadlinePort: a port that also offers what net.Conn and *os.File offer - SetReadDeadline - as a TCP or RFC 2217 serial bridge
+// does. Nothing in the property depends on it; a library that uses it must leave the port as it found it.
+type deadlinePort struct {
+	*DevPort
+	deadline time.Time
+	sets     int
+}
+
+func (p *deadlinePort) SetReadDeadline(t time.Time) error { p.deadline = t; p.sets++; return nil }
+func (p *deadlinePort) SetDeadline(t time.Time) error     { p.deadline = t; p.sets++; return nil }
+func (p *deadlinePort) Read(b []byte) (int, error) {
+	if !p.deadline.IsZero() && time.Now().After(p.deadline) {
+		return 0, os.ErrDeadlineExceeded
+	}
+	return p.DevPort.Read(b)
+}
+
+// runsAfterDeadlineRun: on one RegisterApi, a run bound by a real deadline completes in time; the deadline then passes; later
+// runs - without a deadline, with a cancel-only context, with a new deadline - are complete runs again
+func runsAfterDeadlineRun(s *Sink, rng *Rng) {
+	for _, id := range []uint16{0xA056, 0x203} {
+		rl, _ := veregister.GetRegisterListByProduct(veproduct.Product(id))
+		dev := NewDevPort(id)
+		for i := range rl.NumberRegisters {
+			dev.Regs[rl.NumberRegisters[i].Address()] = DevAnswer{0, answerFor(1, rl.NumberRegisters[i], nil, rng)}
+		}
+		for i := range rl.TextRegisters {
+			dev.Regs[rl.TextRegisters[i].Address()] = DevAnswer{0, answerFor(2, rl.TextRegisters[i], nil, rng)}
+		}
+		for i := range rl.EnumRegisters {
+			dev.Regs[rl.EnumRegisters[i].Address()] = DevAnswer{0, answerFor(3, rl.EnumRegisters[i], &rl.EnumRegisters[i], rng)}
+		}
+		for i := range rl.FieldListRegisters {
+			dev.Regs[rl.FieldListRegisters[i].Address()] = DevAnswer{0, answerFor(4, rl.FieldListRegisters[i], nil, rng)}
+		}
+		port := &deadlinePort{DevPort: dev}
+		api, err := vedirectapi.NewRegisterApi(port, vedirect.Config{})
+		if err != nil {
+			continue
+		}
+		run := func(ctx context.Context) (n int, err error) {
+			defer func() {
+				if r := recover(); r != nil {
+					err = fmt.Errorf("PANIC: %v", r)
+				}
+			}()
+			count := func() { n++ }
+			err = api.StreamRegisterList(ctx, rl, vedirectapi.ValueHandler{Number: func(vedirectapi.NumberRegisterValue) { count() }, Text: func(vedirectapi.TextRegisterValue) { count() },
+				Enum: func(vedirectapi.EnumRegisterValue) { count() }, FieldList: func(vedirectapi.FieldListValue) { count() }})
+			return
+		}
+		ctx1, c1 := context.WithTimeout(context.Background(), 150*time.Millisecond)
+		n1, e1 := run(ctx1)
+		c1()
+		op := fmt.Sprintf("ST runs on one api after a deadline-bound run, product 0x%04X, port offers SetReadDeadline", id)
+		if e1 != nil || n1 != rl.Len() {
+			continue // the machine was too slow for the first run: nothing to conclude
+		}
+		time.Sleep(200 * time.Millisecond) // the first run's deadline passes
+		ctx3, c3 := context.WithCancel(context.Background())
+		ctx4, c4 := context.WithTimeout(context.Background(), 5*time.Second)
+		for ri, ctx := range []context.Context{context.Background(), ctx3, ctx4} {
+			n, e := run(ctx)
+			if e != nil || n != rl.Len() {
+				s.Violate(op, fmt.Sprintf("run %d: %d of %d delivered, err=%v", ri+2, n, rl.Len(), e), fmt.Sprintf("a healthy device, run no. %d on this RegisterApi (context %d of: none / cancel-only / fresh 5 s deadline) after an earlier run whose 150 ms deadline has passed meanwhile: %d of %d registers delivered, err=%v", ri+2, ri, n, rl.Len(), e))
+				break
+			}
+		}
+		c3()
+		c4()
+		s.Extra["runs_after_a_deadline_bound_run"] += 4
+	}
+}
+
 func suiteC10(rng *Rng, thorough bool, s *Sink) {
+	defer runsAfterDeadlineRun(s, rng.Fork())
 	pool := buildPool()
 	classIds := []uint16{0x203, 0xA381, 0xA056, 0xA053, 0xA231}
 	type plan struct {
@@ -1193,6 +1270,16 @@ func suiteC11(rng *Rng, thorough bool, s *Sink) {
 				continue // (decided above)
 			}
 			for k := 2; k <= 4; k++ {
+				// the garbage collector runs between the attempts (finalizers of whatever the failed connect left behind get their
+				// chance): the port is the caller's and stays open
+				runtime.GC()
+				time.Sleep(5 * time.Millisecond)
+				runtime.GC()
+				time.Sleep(5 * time.Millisecond)
+				if dev.Closed {
+					s.Violate(fmt.Sprintf("CN ok ok:%d mut:connect-%d-on-this-port-after-failure-%d", id, k, fi), "port closed", fmt.Sprintf("after a failed connect (%s) the caller's port was closed behind its back (before connect no. %d)", out1, k))
+					dev.Closed = false
+				}
 				// the device is healthy now
 				dev.NoPing, dev.NoId, dev.BadId, dev.BadPing, dev.Id = false, false, nil, nil, id
 				dev.Frames = nil
@@ -1207,7 +1294,8 @@ func suiteC11(rng *Rng, thorough bool, s *Sink) {
 					s.Violate(op, out, fmt.Sprintf("connect no. %d did not ping and then ask the device id: frames %q", k, dev.Frames))
 				}
 				if k == 3 && api != nil {
-					api.Close() // and once more after a Close of the previous object
+					api.Close() // and once more after a Close of the previous object (the caller reopens its port)
+					dev.Closed = false
 				}
 			}
 		}
